@@ -465,6 +465,24 @@ class Host(object):
             if r.wrote():
                 res.violate("DIAG-WROTE", "rejected program yet files were touched: %r" % (r.wrote()[:2],), k)
             return r, ref
+        # NAM and ORG are read off the source text by the harness itself: how the tool extracts them is part of the glue
+        # under test (the reference assembly above runs the same code)
+        src_nam, src_org = None, None
+        for line in lines:
+            parts = line.split(";")[0].split()
+            if line[:1] in " \t" and len(parts) >= 2:
+                if parts[0].upper() == "NAM":
+                    src_nam = parts[1]
+                elif parts[0].upper() == "ORG":
+                    try:
+                        src_org = int(parts[1][1:], 16) if parts[1].startswith("$") else int(parts[1])
+                    except ValueError:
+                        src_org = None
+        if sum(1 for l in lines if l.split()[:1] == ["ORG"] or l.split()[:1] == ["NAM"]) <= 2:
+            if src_nam is not None:
+                ref = dict(ref, name=src_nam)
+            if src_org is not None or not any(" ORG " in l for l in lines):
+                ref = dict(ref, origin=src_org or 0)
         name = ref["name"] or op.get("name")
         unstorable = bool(name) and any(ord(c) > 0xFF for c in name)
         if unstorable:
